@@ -27,6 +27,7 @@ import SSEPyVerif.Proofs.Schemes.CT14Complete
 import SSEPyVerif.Proofs.Schemes.PiPtrComplete
 import SSEPyVerif.Proofs.Schemes.Pi2LevComplete
 import SSEPyVerif.Proofs.Schemes.DP17Room
+import SSEPyVerif.Proofs.Schemes.DP17Complete
 namespace SSEPy.C01
 open SSEPy.Sch SSEPy.Sch.Chain
 
@@ -437,5 +438,29 @@ theorem Pi2Lev.setup_never_raises (raw : RawCfg) (cfg : Pi2LevCfg) (hcfg : Pi2Le
     (hsample : ∀ sample t0, takeNats t = .ok (sample, t0) → ∀ p ∈ sample, p < Pi2Lev.arrayLen cfg db)
     (e : Err) (h : Pi2Lev.setup cfg lv K db t = .error e) : e = .miss :=
   Pi2Lev.setup_onlyMiss cfg lv hl (Pi2Lev.cfgBuild_usable cfg raw hcfg hidx hout) K hK db t hcap hfit hsample e h
+
+/-- DP17: `EDBSetup` NEVER RAISES — accepted configuration, three keys of `param_lambda` bytes, a non-empty database, a level
+    list that ascends without negative levels and whose last level holds every list, level numbers and bucket indices that
+    fit their halves of the hash-table value, a hash function with digests of one positive length: the only failure left in
+    the model is `.miss`.  Everything that could raise is excluded by proof: the level search finds the first fitting
+    level, every level has its bucket array, `random.choice` always has a bucket with room (the `2N + 2^(i+1)` sizing), the
+    hash-table fields and the xor mask have matching widths, the PRF and cipher keys have the lengths they are declared
+    with.  The hypotheses on the level list are decidable facts about `N` and the configuration; they fail for the level
+    ratios of DESIGN.md 11.3, where the code itself raises. -/
+theorem DP17.setup_never_raises (raw : RawCfg) (cfg : DP17Cfg) (hcfg : DP17.cfgBuild raw = .ok cfg) (lv : Leaves)
+    (hl : LeafLaws lv) (d : Nat) (hd0 : 0 < d) (hsha : ∀ m, (lv.sha m).length = d)
+    (k1 k2 k3 : Bytes) (h1 : (k1.length : Int) = cfg.lambda) (h2 : (k2.length : Int) = cfg.lambda)
+    (h3 : (k3.length : Int) = cfg.lambda) (db : DB) (t : Tape) (hN : db.total ≠ 0)
+    (hlv : ∀ levels, DP17.levelsOf cfg db.total = .ok levels →
+      (∀ (i j : Nat) (a b : Int), i ≤ j → levels[i]? = some a → levels[j]? = some b → a ≤ b) ∧
+      (∀ a ∈ levels, 0 ≤ a) ∧ (∀ p ∈ db, ∃ a ∈ levels, DP17.fits cfg a p.2.length = true) ∧
+      ∀ i : Nat, (i : Int) ∈ levels → i < 256 ^ (cfg.dsz / 2) ∧
+        (DP17.sizesOf db.total (i : Int)).length ≤ 256 ^ (cfg.dsz - cfg.dsz / 2))
+    (e : Err) (h : DP17.setup cfg lv [k1, k2, k3] db t = .error e) : e = .miss := by
+  obtain ⟨hu, hL⟩ := DP17.cfgBuild_usable cfg raw hcfg
+  exact DP17.setup_onlyMiss cfg lv hl hu d hd0 hsha k1 k2 k3 h1 h2 h3 db t hN
+    (fun levels hlevels => by
+      obtain ⟨hasc, hnn, hfits, hw⟩ := hlv levels hlevels
+      exact ⟨hnn, fun p hp => DP17.findAdjacent_ok cfg levels p.2.length (by omega) hasc hnn (hfits p hp), hw⟩) e h
 
 end SSEPy.C01
